@@ -75,6 +75,7 @@ TApi ==
 TGlobal ==
     /\ More /\ Ev.k = "x-global" /\ pend = <<>>
     /\ Ev.m = cfg.params
+    /\ ("tlsok" \in DOMAIN Ev => Ev.tlsok)      \* nor has the TLS configuration the user supplied been written to
     /\ l' = l + 1 /\ UNCHANGED <<vars, pend>>
 
 \* a direct call of ParseParameters made by the harness: all placeholders of
